@@ -10,12 +10,19 @@ import sys
 import time
 
 VERIF = os.path.dirname(os.path.abspath(__file__))
-REPO = "/repo"
+# The registered checks always run against /repo with /verif/harness and write under /verif.  The three
+# VERIF_ALT_* variables exist only for tools/mutpriv.sh, which tests a seeded change in a PRIVATE copy of
+# the repository (and a private copy of the harness pointing at it) so that several changes can be
+# tried in parallel without touching /repo; nothing registered in MANIFEST.json sets them.
+REPO = os.environ.get("VERIF_ALT_REPO", "/repo")
 SPEC = os.path.join(VERIF, "spec")
-HARNESS = os.path.join(VERIF, "harness")
-WORK = os.path.join(VERIF, "work")
-CACHE = os.path.join(VERIF, "cache")
-REPLAYS = os.path.join(VERIF, "replays")
+HARNESS = os.environ.get("VERIF_ALT_HARNESS", os.path.join(VERIF, "harness"))
+OUT = os.environ.get("VERIF_ALT_OUT", VERIF)
+WORK = os.path.join(OUT, "work")
+CACHE = os.path.join(VERIF, "cache")           # model-checking results (keyed by the spec files only)
+TRCACHE = os.path.join(OUT, "cache")           # driven traces (keyed by the repository tree)
+REPLAYS = os.path.join(OUT, "replays")
+EVIDENCE = os.path.join(OUT, "evidence")
 DRIVE = os.path.join(HARNESS, "target", "release", "drive")
 TLA_JAR = "/opt/veriftools/tla/tla2tools.jar"
 
